@@ -464,10 +464,13 @@ func (f *Framer) parseDataFrame(streamId StreamId) (*DataFrame, error) {
 	frame.StreamId = streamId
 	frame.Flags = DataFlags(length >> 24)
 	length &= 0xffffff
-	frame.Data = make([]byte, length)
-	if _, err := io.ReadFull(f.r, frame.Data); err != nil {
+	// read in bounded chunks: the 24-bit length is chosen by the peer and may
+	// exceed what actually follows
+	data, err := readBounded(f.r, length)
+	if err != nil {
 		return nil, err
 	}
+	frame.Data = data
 	if frame.StreamId == 0 {
 		return nil, &Error{ZeroStreamId, 0}
 	}
